@@ -18,6 +18,7 @@ static Verdict runCase(const EncCase& c, Info& info)
     lib::Encoder enc;
     enc.setDeviceId(c.dev);
     enc.setStreamId(c.stream);
+    runPriorCalls(enc, c);
     auto frames = enc.encode(batch.begin(), batch.end(), lib::DataContext{c.minB, c.maxB});
 
     lib::Decoder dec;
@@ -49,6 +50,8 @@ static Verdict runCase(const EncCase& c, Info& info)
     }
 
     EncClasses k = classify(c, lengths);
+    if (!c.prior.empty())
+        info.tag("encoder_had_earlier_calls");
     if (k.segmented)
         info.tag("segmented");
     if (k.aggregated)
@@ -74,7 +77,7 @@ int main(int argc, char** argv)
     prop.gen = [](int tier) {
         EncGenParams p;
         p.maxBatch = tier ? 40 : 12;
-        return genEncCase(p);
+        return withPriorCalls(genEncCase(p), p);
     };
     prop.run = runCase;
     return pbtMain(argc, argv, prop);
